@@ -443,7 +443,14 @@ func (c *HTTPClient) clusterHealthCheck(timeout time.Duration) {
 // by the preceding discovery process (if discovery is enabled).
 func (c *HTTPClient) discover() error {
 
+	// every endpoint is asked at most once per round: an endpoint that answers
+	// with a client error is not marked as dead and would be offered again forever
+	attempts := 0
 	for {
+		attempts++
+		if attempts > len(c.topology.Endpoints())+1 {
+			return ErrNoEndpoint
+		}
 		e, err := c.topology.NextReadEndpoint(Any)
 		if err != nil {
 			return err
